@@ -2,3 +2,49 @@
 #![allow(dead_code, unused_imports)]
 use super::*;
 
+
+pub fn parse_public_key(s: &str) -> Result<Ed25519PublicKey, Error> {
+    Crypto::parse_public_key(s)
+}
+
+pub fn parse_private_key_pub(s: &str) -> Result<Vec<u8>, Error> {
+    Crypto::parse_private_key(s).map(|kp| kp.public_key().as_ref().to_vec())
+}
+
+pub fn parse_keypair_pub(privk: &str, pubk: &str) -> Result<Vec<u8>, Error> {
+    Crypto::parse_keypair(privk, pubk).map(|kp| kp.public_key().as_ref().to_vec())
+}
+
+pub fn own_public_key(c: &Crypto) -> Vec<u8> {
+    c.key_pair.public_key().as_ref().to_vec()
+}
+
+pub fn trusted_keys(c: &Crypto) -> Vec<Vec<u8>> {
+    c.trusted_keys.iter().map(|k| k.to_vec()).collect()
+}
+
+/// a Crypto context with prescribed algorithm speeds (no timing loop) built from a 32-byte seed
+pub fn crypto_with(node_id: NodeId, seed: &[u8], trusted: &[Vec<u8>], speeds: &[(u8, f32)], allow_unencrypted: bool) -> Crypto {
+    let key_pair = Ed25519KeyPair::from_seed_unchecked(seed).unwrap();
+    let mut tk: Vec<Ed25519PublicKey> = vec![];
+    for t in trusted {
+        let mut k = [0u8; ED25519_PUBLIC_KEY_LEN];
+        k.copy_from_slice(t);
+        tk.push(k);
+    }
+    let mut algos = Algorithms { algorithm_speeds: smallvec![], allow_unencrypted };
+    for (id, s) in speeds {
+        let a: &'static Algorithm = match id {
+            1 => &aead::AES_128_GCM,
+            2 => &aead::AES_256_GCM,
+            3 => &aead::CHACHA20_POLY1305,
+            _ => panic!("bad algo id"),
+        };
+        algos.algorithm_speeds.push((a, *s));
+    }
+    Crypto { node_id, key_pair: Arc::new(key_pair), trusted_keys: tk.into_boxed_slice().into(), algorithms: algos }
+}
+
+pub fn seed_public_key(seed: &[u8]) -> Vec<u8> {
+    Ed25519KeyPair::from_seed_unchecked(seed).unwrap().public_key().as_ref().to_vec()
+}
